@@ -59,6 +59,8 @@ theorem processMessage_good (env : Env) (sr : Msg → Bool) (m : Msg) :
 variable {om : Option Msg}
 
 section walk
+-- the guard is `excFree` from here on: `disconnect` swallows the exception of an unsendable Logout
+local notation "g" => excFree
 attribute [local irreducible] disconnect stateSet sendMsg sendTestReq M.bind' M.pure' M.get M.modify M.emit M.throw
   M.liftE M.assert M.int
 
@@ -103,16 +105,16 @@ theorem step_good (sr : Msg → Bool) (c : Conn) (ev : Event) (hadm : admissible
   | appSend env m =>
     obtain ⟨a, hx⟩ := run_excFree (x := sendMsg env m) hex
     have hnew : ownSeq m = false := by simpa [admissible] using hadm
-    exact (sendMsg_good (g := excFree) (om := none) env m hnew).out _ _ _ _ hx hex
+    exact (sendMsg_good (om := none) env m hnew).out _ _ _ _ hx hex
   | appTestReq env =>
     obtain ⟨a, hx⟩ := run_excFree (x := sendTestReq env) hex
-    exact (sendTestReq_good (g := excFree) (om := none) env).out _ _ _ _ hx hex
+    exact (sendTestReq_good (om := none) env).out _ _ _ _ hx hex
   | appDisconnect env d l =>
     obtain ⟨a, hx⟩ := run_excFree (x := disconnect env d l) hex
-    exact (disconnect_good (g := excFree) (om := none) env d l).out _ _ _ _ hx hex
+    exact (disconnect_good (om := none) env d l).out _ _ _ _ hx hex
   | tick env =>
     obtain ⟨a, hx⟩ := run_excFree (x := tickBody env) hex
-    exact (tickBody_good (g := excFree) (om := none) env).out _ _ _ _ hx hex
+    exact (tickBody_good (om := none) env).out _ _ _ _ hx hex
   | eof env =>
     change excFree (eof env c).2 = true at hex
     show Good none c (eof env c).1 (eof env c).2
@@ -121,11 +123,11 @@ theorem step_good (sr : Msg → Bool) (c : Conn) (ev : Event) (hadm : admissible
     · rename_i hs
       rw [if_pos hs] at hex
       obtain ⟨a, hx⟩ := run_excFree (x := disconnect env st_DISCONNECTED_BROKEN_CONN none) hex
-      exact (disconnect_good (g := excFree) (om := none) env _ _).out _ _ _ _ hx hex
+      exact (disconnect_good (om := none) env _ _).out _ _ _ _ hx hex
     · exact Compositional.refl c
   | connected k =>
     obtain ⟨a, hx⟩ := run_excFree (x := connectedM k) hex
-    exact (connectedM_good (g := excFree) (om := none) k).out _ _ _ _ hx hex
+    exact (connectedM_good (om := none) k).out _ _ _ _ hx hex
   | resetSeq => simp [admissible] at hadm
 
 theorem step_goodH (sr : Msg → Bool) (c : Conn) (ev : Event) (hadm : admissible ev = true)
